@@ -168,13 +168,16 @@ def noAdjCharsNs : List NSNode → Bool
     (`reservedDecl`, the test of `DocumentBuilder::prefix` on the decoded URI), no prefix declared
     twice (`DocumentBuilder::prefix`), attributes pairwise different by expanded name
     (`open_element`; this implies pairwise different as written, the test of
-    `DocumentBuilder::attribute`), every attribute prefix bound. -/
+    `DocumentBuilder::attribute`), every attribute prefix bound; no name is written with a colon
+    and nothing in front of it (`check_qname`, /repo a5fafb0: an empty prefix span has offset 0, as
+    the tokenizer reports an ABSENT prefix). -/
 def attrsWellNs (scope : Scope) (attrs : List NSAttr) : Prop :=
   (∀ a ∈ attrs, WellSpelled a.pieces) ∧
   (∀ d ∈ declsOf attrs, reservedDecl d.1 d.2 = false) ∧
   ((declsOf attrs).map Prod.fst).Nodup ∧
   ((attrsOf scope attrs).map Prod.fst).Nodup ∧
-  (∀ a ∈ ordinary attrs, a.pfx.text ≠ [] → (scope.lookup a.pfx.text).isSome = true)
+  (∀ a ∈ ordinary attrs, a.pfx.text ≠ [] → (scope.lookup a.pfx.text).isSome = true) ∧
+  (∀ a ∈ attrs, a.pfx.bareColon = false)
 
 /-- A spelling is well formed in `scope` (the scope around the node).  This mirrors what the CODE
     accepts; where that is more than Namespaces in XML 1.0 allows it is kept:
@@ -186,16 +189,18 @@ def attrsWellNs (scope : Scope) (attrs : List NSAttr) : Prop :=
     An end tag repeats the start tag's name AS WRITTEN, prefix and local name: `close_element`
     compares the name ids and the written prefixes (`open_prefixes`), so another prefix bound to
     the same URI does not close the element.  Every element prefix must be bound (the empty prefix
-    always is). -/
+    always is).  An empty prefix span (start tag, end tag, every item) has offset 0: since /repo
+    a5fafb0 `check_qname` refuses an empty prefix at another offset (the spelling `:local`). -/
 def NSNode.Well : Scope → NSNode → Prop
   | scope, .elem pfx loc _ attrs _ kids cpfx cloc _ =>
     attrsWellNs (scope.push (declsOf attrs)) attrs ∧
     ((scope.push (declsOf attrs)).lookup pfx.text).isSome = true ∧
     cpfx.text = pfx.text ∧ cloc.text = loc.text ∧
-    noAdjCharsNs kids = true ∧ wellList (scope.push (declsOf attrs)) kids
+    noAdjCharsNs kids = true ∧ wellList (scope.push (declsOf attrs)) kids ∧
+    pfx.bareColon = false ∧ cpfx.bareColon = false
   | scope, .empty pfx _ _ attrs _ =>
     attrsWellNs (scope.push (declsOf attrs)) attrs ∧
-    ((scope.push (declsOf attrs)).lookup pfx.text).isSome = true
+    ((scope.push (declsOf attrs)).lookup pfx.text).isSome = true ∧ pfx.bareColon = false
   | _, .chars parts => ∀ p ∈ parts, p.Well
   | _, .comment _ _ => True
   | _, .pi target _ _ => isReservedPiTarget target.text = false
